@@ -243,30 +243,44 @@ func RunParent(p *Prop, tier string) int {
 		reported[v.Signature] = true
 		path := filepath.Join(VerifDir(), "replays", fmt.Sprintf("%s-%016x.json", p.ID, Hash(v.Signature, v.Scope, fmt.Sprint(v.Index))))
 		WriteJSON(path, v)
-		// re-execute 5x from the artefact before believing it
-		okAll := true
-		for k := 0; k < 5; k++ {
+		// re-execute from the artefact before believing it: 5 of 5 is the normal case. If some
+		// replays pass, the nondeterminism may sit in the code under test (e.g. Go's random map
+		// iteration order reached by the change): then up to 25 replays are made and the violation is
+		// reported as intermittent if it shows again at least twice; otherwise it is not believed.
+		repro, tries := 0, 0
+		isCrash := strings.Contains(v.Signature, "/crash/")
+		limit := 5
+		if isCrash {
+			limit = 2
+		}
+		for tries < limit {
+			tries++
 			cmd := exec.Command(self, "-replay", path, "-quiet")
-			cmd.Env = append(os.Environ(), "GOMAXPROCS=2")
+			procs := "GOMAXPROCS=2"
+			if p.Instr {
+				procs = "GOMAXPROCS=1"
+			}
+			cmd.Env = append(os.Environ(), procs)
 			out, err2 := cmd.CombinedOutput()
-			if strings.Contains(v.Signature, "/crash/") {
-				// reproduction of a crash = the replay process dies abnormally again (or reports a violation)
+			ok := strings.Contains(string(out), "REPRODUCED signature="+v.Signature+"\n")
+			if isCrash {
 				if ee, isExit := err2.(*exec.ExitError); isExit && (ee.ExitCode() > 2 || ee.ExitCode() < 0 || strings.Contains(string(out), "fatal error:")) || strings.Contains(string(out), "REPRODUCED signature=") {
-					if k >= 1 {
-						break // twice is enough for crashes (each may take long)
-					}
-					continue
+					ok = true
 				}
 			}
-			if !strings.Contains(string(out), "REPRODUCED signature="+v.Signature+"\n") {
-				okAll = false
-				fmt.Fprintf(os.Stderr, "replay %d of %s did not reproduce signature %q:\n%s\n", k, path, v.Signature, tail(string(out), 1500))
-				break
+			if ok {
+				repro++
+			} else if limit == 5 {
+				limit = 25
+				fmt.Fprintf(os.Stderr, "replay %d of %s did not reproduce signature %q; trying up to 25 replays:\n%s\n", tries, path, v.Signature, tail(string(out), 600))
 			}
 		}
-		if !okAll {
-			fmt.Fprintf(os.Stderr, "HARNESS-ERROR property=%s violation did not reproduce deterministically (nondeterminism in the harness)\n", p.ID)
-			return 2
+		if repro < tries {
+			if repro < 2 {
+				fmt.Fprintf(os.Stderr, "HARNESS-ERROR property=%s violation reproduced in only %d of %d replays: not believed\n", p.ID, repro, tries)
+				return 2
+			}
+			fmt.Printf("NOTE: intermittent: the recorded case violates the property in %d of %d replays (nondeterminism inside the code under test)\n", repro, tries)
 		}
 		newViolations++
 		exit = 1
